@@ -115,6 +115,8 @@ class Run(object):
 
             @asyncio.coroutine
             def process(self, item):
+                if not isinstance(item, int) or isinstance(item, bool):
+                    item = 0            # not something the source supplied (e.g. the queue's own marker object)
                 run.log(e='begin', w=run.wid(), j=self.j, i=item)
                 fut = asyncio.get_event_loop().create_future()
                 run.pending[(item, self.j)] = fut
